@@ -23,7 +23,7 @@ Inductive fault :=
 
 Inductive cls :=
 | KOk                       (* `else:` branch — return the response *)
-| KRetry (ra : option Z)    (* the retried `except` branch; ra = server-requested delay the code looks at *)
+| KRetry (ra : option Z)    (* the retried `except` branch; ra = server-requested delay (every APIError: 403, 429, 5xx) *)
 | KReauth                   (* leaves `request` as APIUnauthorizedError / APISessionClosed *)
 | KRaise.                   (* propagates at once *)
 
@@ -42,10 +42,10 @@ Definition classify (f : fault) : cls :=
   | FStatus c hdr det =>
       if c <? 400 then KOk
       else if c =? 401 then KReauth                         (* APIUnauthorizedError: not in the tuple *)
-      else if c =? 403 then KRetry None                     (* APIForbiddenError *)
+      else if c =? 403 then KRetry (retry_after hdr det)    (* APIForbiddenError *)
       else if c =? 429 then KRetry (retry_after hdr det)    (* APITooManyRequestsError *)
       else if c <? 500 then KRaise                          (* 404/409/422/other APIClientError *)
-      else if c <? 600 then KRetry None                     (* APIServerError; Retry-After NOT looked at *)
+      else if c <? 600 then KRetry (retry_after hdr det)    (* APIServerError *)
       else KRaise                                           (* plain APIError *)
   | FConn => KRetry None
   | FTimeout => KRetry None
